@@ -267,6 +267,61 @@ def derived_model_history(run, models):
                         theorem="C02_formula_" + key)
 
 
+def constrained_params_cases(run, keys):
+    """shipped models evaluated through model() / residual() with a parameter
+    tied to another one by an expression, right after the constraint was set
+    and after the independent parameter was changed in place: the formula is
+    evaluated with the values the parameter set reports"""
+    from nanite import model
+    for key in sorted(keys):
+        md = model.models_available[key]
+        p = md.get_parameter_defaults()
+        names = list(p.keys())
+        ind = "E_S" if "E_S" in names else "E"
+        ties = []
+        if "E_L" in names:
+            ties.append(("E_L", "E_S/100"))
+        if "nu_L" in names:
+            ties.append(("nu_L", "nu_S"))
+        if not ties:
+            ties.append(("baseline", f"{ind}*1e-14"))
+        x = np.linspace(1e-6, -1.5e-6, 9)
+        for orient in (1, -1):
+            xx = x[::orient].copy()
+            run.case({"constrained-params": key, "orientation": orient},
+                     kind="constrained")
+            try:
+                p = md.get_parameter_defaults()
+                p["contact_point"].set(value=1e-7)
+                for dep, ex in ties:
+                    p[dep].set(expr=ex)
+                got1 = np.array(md.model(p, xx), copy=True)
+                p[ind].set(value=float(p[ind].value) * 0.37 + 11.0)
+                if "nu_S" in names:
+                    p["nu_S"].set(value=0.41)
+                got2 = np.array(md.model(p, xx), copy=True)
+                vals = {n: float(p[n].value) for n in names}
+                asc = xx[0] < xx[-1]
+                inner = md.module.model_func(
+                    (xx[::-1] if asc else xx).copy(), **vals)
+                want2 = inner[::-1] if asc else inner
+                ok = got2.tobytes() == np.asarray(want2).tobytes() \
+                    and not np.array_equal(got1, got2)
+            except BaseException as e:
+                run.failing(SITE, f"constrained:{key}:{orient}",
+                            f"raised {type(e).__name__}: {e}",
+                            payload={"kind": "rerun"})
+                continue
+            if not ok:
+                run.failing(SITE, f"constrained:{key}:{orient}",
+                            f"{key}: model() with {ties} after {ind} was "
+                            "changed in place differs from the model "
+                            "function evaluated with the reported values "
+                            f"(max {float(np.max(np.abs(got2 - want2))):.3g})",
+                            payload={"kind": "rerun"},
+                            theorem="C02_formula_" + key)
+
+
 def sneddon_documented_bound(run):
     """numerical cross-check of the documented 1e-4 bound against the exact
     implicit solution (the Coq theorem C02_sneddon_series_close is the proof)"""
@@ -339,6 +394,11 @@ def check(run):
         docstring_constants(run, models)
         numeric_search(run, models, rng, 40 if run.tier == "quick" else 1500)
     sneddon_documented_bound(run)
+    try:
+        constrained_params_cases(run, dict(gen_formulas.SHIPPED))
+    except BaseException as e:
+        run.obligation("constrained-params-completed", False,
+                       f"{type(e).__name__}: {e}")
     try:
         derived_model_history(run, dict(gen_formulas.SHIPPED))
     except BaseException as e:
